@@ -385,7 +385,22 @@ impl<'a> Model<'a> {
                     self.report.statements
                 ),
             ),
-            Outcome::Panic { .. } => Ok(()), // reported by the C08 oracle
+            Outcome::Panic { .. } => {
+                // the internal failure itself is reported by the C08 oracle; statements
+                // executed after the model's program had ended are a control-flow matter
+                if self.stmt_ev_idx < self.stmt_events.len() {
+                    let (s, o) = self.stmt_events[self.stmt_ev_idx];
+                    return self.diverge(
+                        Class::ControlFlow,
+                        Some(s),
+                        format!(
+                            "implementation went on to execute statement {}#{} after the model's program ended (and then failed internally)",
+                            s, o
+                        ),
+                    );
+                }
+                Ok(())
+            }
             other => self.diverge(
                 Class::ControlFlow,
                 None,
@@ -1889,9 +1904,34 @@ impl<'a> Model<'a> {
         if let DevKey::Inst(inst) = k {
             self.append_to_file(inst, &got);
         }
+        // Column after the failure. A hard fault (error, Ok(0), EINTR surfaced as an error)
+        // rejects a whole write call, so what reached the device ends at a boundary the
+        // implementation knows: the column is the column of the delivered bytes. With a
+        // short write in the same execution a fragment may be cut in the middle: unknown.
+        let faults = self.fired.get(&key).cloned().unwrap_or_default();
+        let cut_fragment = faults
+            .iter()
+            .any(|f| matches!(f.2, FaultKind::ShortWrite(_)));
+        let start_col = self.dev_state(k).col;
         let st = self.dev_state(k);
         st.pos += delivered;
-        st.col = None;
+        st.col = match (start_col, cut_fragment) {
+            (Some(c0), false) => {
+                let mut c = c0;
+                for b in &got {
+                    if *b == b'\r' || *b == b'\n' {
+                        c = 0;
+                    } else {
+                        c += 1;
+                    }
+                }
+                Some(c)
+            }
+            _ => None,
+        };
+        if st.col.is_some() {
+            self.probe("column_known_after_failed_print");
+        }
         self.sync_chunks(k, key, s.id, false)?;
         Ok(Err(Failure { code: None }))
     }
